@@ -45,6 +45,8 @@ structure Tables where
   objectUnchecked : Bool
   schemaDuringScan : Bool
   descRaw : Bool
+  toolOmitsDirectives : Bool
+  toolEmbedRaw : Bool
   dirArgWrapperAccepted : Bool
   dupScalarDropped : Bool
   subtypeNarrow : Bool
